@@ -432,4 +432,16 @@ def rule_rank(ck):
             (o.ok() if lp is not None and not g else o.fail('the event is not appended once per record (%s)' % ('outside the record loop' if lp is None else 'conditional on `%s`' % u(g[0][0]))))
 
 
-RULES = [rule_dispatch, rule_slots, rule_kinds, rule_rollover, rule_rank, rule_records]
+def rule_time_and_order(ck):
+    """the readers hand naive UTC field values to datetime_to_utc_epoch (shared C15-D1/D2: exact, naive = UTC), and the events stay
+    in file order on the way into the catalog (shared C14-D7 row order, including csep.load_catalog)"""
+    from . import c14, c15
+    P = ck.prog
+    ck.clause('D4 (shared C15-D1/D2)')
+    c15.rule_utc(ck)
+    c15.rule_exact(ck, only=('strptime_to_utc_epoch', 'datetime_to_utc_epoch', 'strptime_to_utc_datetime'))
+    ck.clause('D2 (shared C14-D7 row order)')
+    c14.rule_row_order(ck)
+
+
+RULES = [rule_dispatch, rule_slots, rule_kinds, rule_rollover, rule_rank, rule_records, rule_time_and_order]
